@@ -19,8 +19,11 @@ RULES = {
     "keyed by node.graph and extended into the graph that keys it; the sort never touches the node list directly",
     "R3": "nested scopes: nodes of GRAPH and of GRAPHS attributes are both counted as predecessors (S1); the pass sorts "
     "the main graph and every function",
+    "R4": "edge completeness: in the loop over a node's inputs, recording the producer of the input as a predecessor is "
+    "unconditional - the only way to skip it is the None test of the input itself (no memo, filter or early exit decides "
+    "whether a dependency edge exists)",
 }
-FLOORS = {"R1": 2, "R2": 4, "R3": 3}
+FLOORS = {"R1": 2, "R2": 4, "R3": 3, "R4": 1}
 EXPLANATION = (
     "Dominance of the cycle rejection over every state-writing call of Graph.sort (effect summaries), and structural "
     "checks that relinking goes through the ownership-preserving API into the graph each node already belongs to."
@@ -51,7 +54,9 @@ def run(ctx):
     ok = len(raises) == 1 and bool(mnodes)
     if ok:
         iff = getattr(raises[0], "_parent", None)
-        ok = isinstance(iff, ast.If) and "len(nodes)" in norm(iff.test)
+        # the guard compares the number of nodes the sort could order with the number of nodes it was given
+        ok = isinstance(iff, ast.If) and any(isinstance(x, ast.Compare) and any(
+            isinstance(y, ast.Call) and dotted_of(y.func) == "len" for y in ast.walk(x)) for x in ast.walk(iff.test))
         tn = [x for x in cfg.node_of(iff) if x.kind == "test"][0]
         ok = ok and all(cfg.dominates(tn, cfg.nodes[nid]) for nid in mnodes)
     ctx.check("R1", f"the cycle check dominates all {len(mnodes)} state-writing statement(s) of sort", bool(ok), f, f.node,
@@ -84,7 +89,7 @@ def run(ctx):
     rev = bool(ext) and "reversed(" in norm(ext[0].args[0])
     ctx.check("R2", "buckets (built in reverse topological order) are reversed when relinked", rev, f, ext[0] if ext else f.node,
               "nodes are relinked in reverse order", how="reversed(bucket)", nontrivial=False)
-    keys = [n for n in own_nodes(f.node) if isinstance(n, (ast.DictComp,)) and "node.graph" in norm(n)]
+    keys = [n for n in own_nodes(f.node) if isinstance(n, (ast.DictComp,)) and any(isinstance(x, ast.Attribute) and x.attr == "graph" for x in ast.walk(n))]
     ctx.check("R2", "one bucket per graph that owns a traversed node", bool(keys), f, f.node, "bucket table is not derived from node.graph", nontrivial=False)
     # R3
     n = 0
@@ -103,3 +108,60 @@ def run(ctx):
         isinstance(x, ast.For) and "model.functions" in norm(x.iter) for x in own_nodes(p.node))
     ctx.check("R3", "TopologicalSortPass sorts the main graph and every function", ok, p, p.node,
               "functions (or the main graph) are left unsorted by the pass", how="sort calls on model.graph and in a loop over model.functions")
+    # R4
+    n_edges = 0
+    for lp in (x for x in own_nodes(f.node) if isinstance(x, ast.For) and isinstance(x.target, ast.Name)
+               and isinstance(x.iter, ast.Attribute) and x.iter.attr == "inputs"):
+        v = lp.target.id
+        prod_names = {a.targets[0].id for a in ast.walk(lp) if isinstance(a, ast.Assign) and isinstance(a.targets[0], ast.Name)
+                      and any(isinstance(c, ast.Call) and isinstance(c.func, ast.Attribute) and c.func.attr == "producer" for c in ast.walk(a.value))}
+        edge_calls = [c for c in ast.walk(lp) if isinstance(c, ast.Call) and not (isinstance(c.func, ast.Attribute) and c.func.attr == "producer")
+                      and any((isinstance(a, ast.Name) and a.id in prod_names) or any(
+                          isinstance(y, ast.Call) and isinstance(y.func, ast.Attribute) and y.func.attr == "producer" for y in ast.walk(a)) for a in c.args)]
+        if not edge_calls:
+            continue
+        ec = edge_calls[0]
+        n_edges += 1
+
+        def none_test(t, positive):
+            # `<v> is None` (positive) / `<v> is not None` (negative)
+            return isinstance(t, ast.Compare) and len(t.ops) == 1 and isinstance(t.left, ast.Name) and t.left.id == v \
+                and isinstance(t.comparators[0], ast.Constant) and t.comparators[0].value is None \
+                and isinstance(t.ops[0], ast.Is if positive else ast.IsNot)
+
+        # a per-node memo (re-created for every node before its inputs are scanned) may drop repeated edges of that node
+        outer = getattr(lp, "_parent", None)
+        per_node = set()
+        if isinstance(outer, ast.For) and lp in outer.body:
+            for st in outer.body[: outer.body.index(lp)]:
+                if isinstance(st, (ast.Assign, ast.AnnAssign)) and getattr(st, "value", None) is not None:
+                    for t in st.targets if isinstance(st, ast.Assign) else [st.target]:
+                        if isinstance(t, ast.Name):
+                            per_node.add(t.id)
+
+        def per_node_memo_test(t):
+            names = {x.id for x in ast.walk(t) if isinstance(x, ast.Name)} - {v} - prod_names
+            return bool(names) and names <= per_node
+
+        bad = None
+        # conditions controlling the edge call inside the loop
+        child, par = ec, getattr(ec, "_parent", None)
+        while par is not None and par is not lp:
+            if isinstance(par, ast.If):
+                in_body = any(child is x for x in par.body) or any(child is y for x in par.body for y in ast.walk(x))
+                if not ((in_body and none_test(par.test, False)) or (not in_body and none_test(par.test, True)) or per_node_memo_test(par.test)):
+                    bad = par
+            child, par = par, getattr(par, "_parent", None)
+        # exits of the iteration before the edge call
+        pos = (ec.lineno, ec.col_offset)
+        for x in ast.walk(lp):
+            if isinstance(x, (ast.Continue, ast.Break, ast.Return)) and (x.lineno, x.col_offset) < pos:
+                g = getattr(x, "_parent", None)
+                if not (isinstance(g, ast.If) and x in g.body and (none_test(g.test, True) or per_node_memo_test(g.test))):
+                    bad = bad or g or x
+        ctx.check("R4", f"Graph.sort: {norm(ec)[:60]} is recorded for every non-None input", bad is None, f, bad if bad is not None else ec,
+                  f"the dependency edge from an input's producer is recorded only when `{norm(bad.test) if isinstance(bad, ast.If) else norm(bad) if bad is not None else ''}` "
+                  "allows it: a skipped edge lets the sort place a consumer before its producer",
+                  how="control conditions of the edge-recording call inside the loop over node.inputs; exits before it",
+                  construct="producer edge recorded conditionally")
+    ctx.require(n_edges >= 1, "Graph.sort: loop recording the producers of node.inputs not found")
